@@ -10,6 +10,7 @@ ENGINES = {
 	'C07': ('tranpsim.c07', 'C07'),
 	'C14': ('tranpsim.c14', 'C14'),
 	'C15': ('tranpsim.c15', 'C15'),
+	'C19': ('tranpsim.c19', 'C19'),
 }
 
 
